@@ -11,7 +11,10 @@
    `child_run` crosses from the frame of the header line to the frame of its child lines and back).  `Plist`
    is the statement-list loop of a block (generic in the kind of the block), `Parms` the loop over the arms
    of a case statement, `Phand` the loop over the handlers of an except block.  Tokens: while the pass index is k the
-   state holds `mix k` (final types before k, lexed types from k on); `on` is the one re-typed token so far. *)
+   state holds `mix k` (final types before k, lexed types from k on); re-typed tokens: `on` of a handler, and in the
+   declaration sections `var`/`const` (DeclKind Section) and the `=` of a constant (EqKind Decl).
+   Declaration sections in front of the main block (`member_run`, `members_run`, `section_run`, `decls_run`,
+   `unit_run`, at the end of Section Frag): the theorems about units are in Proofs/FragmentUnitProofs.v. *)
 From PasfmtVerif Require Import Model.Fragment Model.DirectiveTree Proofs.DirectiveTreeProofs Proofs.ParserKernelProofs Proofs.ParserGrammarProofs
   Proofs.ParserGrammarTypesProofs Proofs.ParserGrammarCoverProofs Proofs.ParserGrammarEofProofs.
 Local Open Scope nat_scope.
@@ -21,7 +24,8 @@ Definition plain (t : RawTokenType) : Prop :=
   | RTT_Identifier | RTT_Op OK_Semicolon | RTT_Op OK_Assign | RTT_Op OK_Dot | RTT_Keyword KK_Begin | RTT_Keyword KK_End
   | RTT_Keyword KK_Repeat | RTT_Keyword KK_Until | RTT_Keyword KK_Try | RTT_Keyword KK_Finally | RTT_Keyword KK_Except
   | RTT_Keyword KK_If | RTT_Keyword KK_Then | RTT_Keyword KK_Else | RTT_Keyword KK_While | RTT_Keyword KK_Do
-  | RTT_Keyword KK_Case | RTT_Keyword KK_Of | RTT_Op OK_Colon | RTT_IdentifierOrKeyword KK_On | RTT_Keyword KK_On | RTT_Eof => True
+  | RTT_Keyword KK_Case | RTT_Keyword KK_Of | RTT_Op OK_Colon | RTT_IdentifierOrKeyword KK_On | RTT_Keyword KK_On
+  | RTT_Keyword (KK_Var _) | RTT_Keyword (KK_Const _) | RTT_Op (OK_Equal _) | RTT_Eof => True
   | _ => False
   end.
 
@@ -111,7 +115,12 @@ Proof.
   rewrite !nth_error_app2 by (rewrite ?map_length; exact Hl). rewrite map_length. reflexivity.
 Qed.
 Lemma fin_plain t : plain t -> plain (fin t).
-Proof. destruct t as [o| |k0|k0| | | | | | |]; try exact (fun H => H). destruct k0; exact (fun H => H). Qed.
+Proof.
+  destruct t as [o| |k0|k0| | | | | | |]; try exact (fun H => H).
+  - destruct o; try exact (fun H => H). destruct k; exact (fun H => H).
+  - destruct k0; exact (fun H => H).
+  - destruct k0; try exact (fun H => H); match goal with d : DeclKind |- _ => destruct d; exact (fun H => H) end.
+Qed.
 Lemma mix_step k : tokfin k -> mix (S k) = mix k.
 Proof.
   intros (t & Ht & Hf). unfold mix. revert k Ht. generalize T as l.
@@ -2918,56 +2927,81 @@ Proof.
   - intros c Hc r Hr. exact (phand_cons c r Hc Hr).
 Qed.
 
-(* ---------------- a whole program: `begin` ss `end` `.` Eof *)
-Theorem prog_run ss f s0 mc0 last0 lv a :
-  wf ss = true -> ST [] s0 0 [] [] [] mc0 last0 [] lv a ->
-  nth_error T 0 = Some tBegin -> toks_at 1 (render ss ++ [tEnd]) ->
-  nth_error T (S (S (length (render ss)))) = Some tDot ->
-  nth_error T (S (S (S (length (render ss))))) = Some RTT_Eof ->
-  n = S (S (S (S (length (render ss))))) ->
-  8 + need ss <= f ->
-  let e := S (length (render ss)) in
-  exists mc' last',
-    ST [] (RUN f C_top s0) n
-       ([0] :: map ll_toks (pexpected None 1 1 1 ss) ++ [[e; S e]; [S (S e)]]) []
-       (mkLM None 0%N LLT_Unknown :: map meta_of (pexpected None 1 1 1 ss) ++ [mkLM None 0%N LLT_Unknown; mkLM None 0%N LLT_Eof])
-       mc' last' [] lv a.
+(* ---------------- a whole program: [declarations] `begin` ss `end` `.` Eof *)
+(* the top level: parse_file's outer loop around the one top-level parse_structures call *)
+Definition top_tail (f : nat) (sX : pstate) : pstate :=
+  let s3 := take_separators_on_last_line pass (ParserGrammar.L 0) (finish_logical_line pass (pop_ctx pass sX)) in
+  let s4 := if is_ending pass s3 || match cur_tt pass s3 with None => true | Some _ => false end then s3
+            else RUN f (C_stmt_list CT_TopLevelStatement true P_top_semicolon) s3 in
+  finish_logical_line pass (set_line_type pass LLT_Eof (next_token pass (finish_logical_line pass s4))).
+Lemma top_head f s0 : has_err pass s0 = false ->
+  RUN (S (S (S f))) C_top s0 = top_tail (S f) (RUN f C_structures (push_ctx pass cTop (finish_logical_line pass s0))).
 Proof.
-  intros Hwf H Ht0 Htb HtD HtE Hn Hf e.
-  destruct f as [|[|[|[|[|[|[|f]]]]]]]; try lia.
-  assert (H0n : tokfin 0) by tokfin_tac.
-  rewrite (run_S _ C_top _ (ST_err (@nil nat) _ _ _ _ _ _ _ _ _ _ H)). unfold arm_top. cbv zeta.
-  (* the top-level loop: one iteration *)
-  rewrite (stmt_list_unfold _ _ _ _ _ (ST_err (@nil nat) _ _ _ _ _ _ _ _ _ _ H)). cbv zeta.
+  intros E. rewrite (run_S _ C_top _ E). unfold arm_top. cbv zeta.
+  rewrite (stmt_list_unfold _ _ _ _ _ E). cbv zeta.
   change (ctx CT_TopLevelStatement true P_top_semicolon (ParserGrammar.L 0)) with cTop.
-  rewrite (with_ctx_structures _ cTop s0 (ST_err (@nil nat) _ _ _ _ _ _ _ _ _ _ H) eq_refl).
-  pose proof (finish_empty_ST (@nil nat) _ _ _ _ _ _ _ _ _ H) as H0.
-  pose proof (push_ctx_ST (@nil nat) cTop _ _ _ _ _ _ _ _ _ _ H0) as H1.
+  rewrite (with_ctx_structures _ cTop s0 E eq_refl). reflexivity.
+Qed.
+(* the end of the file: parse_structures has returned in front of Eof *)
+Lemma top_tail_run f sX k L M mc last lv a :
+  ST [] sX k L [] M mc last [(cTop, false)] lv a -> nth_error T k = Some RTT_Eof -> n = S k ->
+  exists mc' last',
+  ST [] (top_tail f sX) n (L ++ [[k]]) [] (M ++ [mkLM None 0%N LLT_Eof]) mc' last' [] lv a.
+Proof.
+  intros H9 HtE Hn. unfold top_tail. cbv zeta.
+  assert (Hen2 : tokfin k) by (exists RTT_Eof; split; [exact HtE|reflexivity]).
+  pose proof (pop_ctx_ST (@nil nat) _ _ _ _ _ _ _ _ _ _ _ H9) as H10.
+  pose proof (finish_empty_ST (@nil nat) _ _ _ _ _ _ _ _ _ H10) as H11.
+  rewrite (take_separators_noop (@nil nat) _ _ _ _ _ _ _ _ _ _ _ RTT_Eof H11 HtE) by discriminate.
+  rewrite (ST_cur_tt (@nil nat) _ _ _ _ _ _ _ _ _ _ _ H11 HtE). rewrite orb_true_r.
+  pose proof (finish_empty_ST (@nil nat) _ _ _ _ _ _ _ _ _ H11) as H12.
+  pose proof (next_token_ST (@nil nat) _ _ _ _ _ _ _ _ _ _ H12 Hen2) as H13. cbn [app] in H13.
+  pose proof (set_line_type_ST (@nil nat) LLT_Eof _ _ _ _ _ _ _ _ _ _ H13) as H14.
+  pose proof (finish_ST (@nil nat) _ _ _ _ _ _ _ _ _ _ H14 ltac:(discriminate)) as H15.
+  cbn [first_parent plain_sum lm_type] in H15. change (clamp_u16 0) with 0%N in H15.
+  rewrite <- Hn in H15. eexists _, _. exact H15.
+Qed.
+(* the main block `begin` ss `end` `.` inside the top-level parse_structures loop *)
+Lemma main_core ss f s1 K Ls M mc last lv a :
+  wf ss = true -> ST [] s1 K Ls [] M mc last [(cTop, false)] lv a -> lm_type mc = LLT_Unknown ->
+  nth_error T K = Some tBegin -> toks_at (S K) (render ss ++ [tEnd]) ->
+  nth_error T (S (S K + length (render ss))) = Some tDot ->
+  nth_error T (S (S (S K + length (render ss)))) = Some RTT_Eof ->
+  8 + need ss <= f ->
+  let e := S K + length (render ss) in
+  exists last',
+    ST [] (RUN f C_structures s1) (S (S e))
+       (Ls ++ [K] :: map ll_toks (pexpected None 1 (S K) (S (length Ls)) ss) ++ [[e; S e]]) []
+       (M ++ mkLM None 0%N LLT_Unknown :: map meta_of (pexpected None 1 (S K) (S (length Ls)) ss) ++ [mkLM None 0%N LLT_Unknown])
+       (mkLM None 0%N LLT_Unknown) last' [(cTop, false)] lv a.
+Proof.
+  intros Hwf H1 Hty Ht0 Htb HtD HtE Hf e.
+  destruct f as [|[|[|f]]]; try lia.
+  assert (H0n : tokfin K) by tokfin_tac.
   rewrite (run_S _ C_structures _ (ST_err (@nil nat) _ _ _ _ _ _ _ _ _ _ H1)).
   unfold arm_structures. rewrite (ST_cur_tt (@nil nat) _ _ _ _ _ _ _ _ _ _ _ H1 Ht0). cbn [tBegin].
-  assert (E1 : ending_ctx pass (push_ctx pass cTop (finish_logical_line pass s0)) = None).
+  assert (E1 : ending_ctx pass s1 = None).
   { unfold ending_ctx. rewrite (ST_ctx (@nil nat) _ _ _ _ _ _ _ _ _ _ H1). cbn [ending_go cTop ctx c_pred c_opaque eval_pred].
     rewrite (ST_cur_tt (@nil nat) _ _ _ _ _ _ _ _ _ _ _ H1 Ht0). reflexivity. }
-  rewrite E1. cbn [sarm_of]. cbv delta [sa_begin stmt_block] beta.
+  rewrite E1. cbn [sarm_of tBegin]. cbv delta [sa_begin stmt_block] beta.
   pose proof (next_token_ST (@nil nat) _ _ _ _ _ _ _ _ _ _ H1 H0n) as H2. cbn [app] in H2.
   change (ctx (CT_StatementBlock BK_Begin) true P_end (ParserGrammar.L 1)) with (cBlk KBegin).
   rewrite (run_S _ (C_stmt_block (cBlk KBegin) SK_Normal) _ (ST_err (@nil nat) _ _ _ _ _ _ _ _ _ _ H2)). unfold arm_stmt_block.
   rewrite (with_ctx_stmt_list _ (cBlk KBegin) _ _ (ST_err (@nil nat) _ _ _ _ _ _ _ _ _ _ H2) eq_refl).
   pose proof (finish_ST (@nil nat) _ _ _ _ _ _ _ _ _ _ H2 ltac:(discriminate)) as H3.
-  cbn [first_parent plain_sum cTop ctx c_level ParserGrammar.L lm_type app length] in H3.
+  cbn [first_parent plain_sum cTop ctx c_level ParserGrammar.L app length] in H3. rewrite Hty in H3.
   change (clamp_u16 (0 + 0)) with 0%N in H3.
   pose proof (push_ctx_ST (@nil nat) (cBlk KBegin) _ _ _ _ _ _ _ _ _ _ H3) as H4.
-  pose proof (fun Hli => stmts_run ss [] None KBegin [(cTop, false)] ltac:(discriminate) eq_refl eq_refl Hwf (S f) _ _ _ _ _ _ _ _ 1 ltac:(lia) Hli H4 Htb) as SRn.
-  destruct (SRn eq_refl) as (mcb & lastb & flb & Tyb & H5).
+  pose proof (fun Hli => stmts_run ss [] None KBegin [(cTop, false)] ltac:(discriminate) eq_refl eq_refl Hwf f _ _ _ _ _ _ _ _ (S (length Ls)) ltac:(lia) Hli H4 Htb) as SRn.
+  destruct (SRn ltac:(rewrite app_length; cbn [length]; lia)) as (mcb & lastb & flb & Tyb & H5).
   change (C_stmt_list (CT_Statement SK_Normal) false P_semicolon) with (slc KBegin).
   cbn [plain_sum cTop ctx c_level ParserGrammar.L] in H5. change (1 + (0 + 0))%Z with 1%Z in H5.
   pose proof (pop_ctx_ST (@nil nat) _ _ _ _ _ _ _ _ _ _ _ H5) as H6.
-  change (1 + length (render ss)) with e in H6.
-  set (sB := pop_ctx pass (RUN (S f) (slc KBegin) (push_ctx pass (cBlk KBegin) (finish_logical_line pass (next_token pass (push_ctx pass cTop (finish_logical_line pass s0))))))) in *.
+  fold e in H6.
+  match type of H6 with ST _ ?x _ _ _ _ _ _ _ _ _ => set (sB := x) in * end.
   assert (He : nth_error T e = Some tEnd).
   { specialize (Htb (length (render ss)) tEnd). rewrite nth_error_app2, Nat.sub_diag in Htb by lia. exact (Htb eq_refl). }
   assert (Hen : tokfin e) by tokfin_tac. assert (Hen1 : tokfin (S e)) by (exists tDot; split; [exact HtD|reflexivity]).
-  assert (Hen2 : tokfin (S (S e))) by (exists RTT_Eof; split; [exact HtE|reflexivity]).
   rewrite (ST_cur_tt (@nil nat) _ _ _ _ _ _ _ _ _ _ _ H6 He). cbn [tEnd o_kw_end].
   pose proof (next_token_ST (@nil nat) _ _ _ _ _ _ _ _ _ _ H6 Hen) as H7. cbn [app] in H7.
   rewrite (ST_cur_tt (@nil nat) _ _ _ _ _ _ _ _ _ _ _ H7 HtD). cbn [tDot o_dot].
@@ -2978,22 +3012,436 @@ Proof.
   unfold s_loop.
   rewrite (run_S _ C_structures _ (ST_err (@nil nat) _ _ _ _ _ _ _ _ _ _ H9)).
   unfold arm_structures. rewrite (ST_cur_tt (@nil nat) _ _ _ _ _ _ _ _ _ _ _ H9 HtE).
-  pose proof (pop_ctx_ST (@nil nat) _ _ _ _ _ _ _ _ _ _ _ H9) as H10.
-  pose proof (finish_empty_ST (@nil nat) _ _ _ _ _ _ _ _ _ H10) as H11.
-  rewrite (take_separators_noop (@nil nat) _ _ _ _ _ _ _ _ _ _ _ RTT_Eof H11 HtE) by discriminate.
-  rewrite (ST_cur_tt (@nil nat) _ _ _ _ _ _ _ _ _ _ _ H11 HtE). rewrite orb_true_r.
-  (* the Eof line *)
-  pose proof (finish_empty_ST (@nil nat) _ _ _ _ _ _ _ _ _ H11) as H12.
-  pose proof (next_token_ST (@nil nat) _ _ _ _ _ _ _ _ _ _ H12 Hen2) as H13. cbn [app] in H13.
-  pose proof (set_line_type_ST (@nil nat) LLT_Eof _ _ _ _ _ _ _ _ _ _ H13) as H14.
-  pose proof (finish_ST (@nil nat) _ _ _ _ _ _ _ _ _ _ H14 ltac:(discriminate)) as H15.
-  cbn [first_parent plain_sum lm_type] in H15. change (clamp_u16 0) with 0%N in H15.
-  assert (Hn' : S (S (S e)) = n) by (unfold e; lia). rewrite Hn' in H15.
-  eexists _, _. eapply (ST_lists []).
-  - exact H15.
+  eexists. eapply (ST_lists []).
+  - exact H9.
   - cbn [app]. repeat (progress (cbn [app]; rewrite <- ?app_assoc)). reflexivity.
   - cbn [app]. repeat (progress (cbn [app]; rewrite <- ?app_assoc)). reflexivity.
 Qed.
+Theorem prog_run ss f s0 mc0 last0 lv a :
+  wf ss = true -> ST [] s0 0 [] [] [] mc0 last0 [] lv a ->
+  nth_error T 0 = Some tBegin -> toks_at 1 (render ss ++ [tEnd]) ->
+  nth_error T (S (S (length (render ss)))) = Some tDot ->
+  nth_error T (S (S (S (length (render ss))))) = Some RTT_Eof ->
+  n = S (S (S (S (length (render ss))))) ->
+  12 + need ss <= f ->
+  let e := S (length (render ss)) in
+  exists mc' last',
+    ST [] (RUN f C_top s0) n
+       ([0] :: map ll_toks (pexpected None 1 1 1 ss) ++ [[e; S e]; [S (S e)]]) []
+       (mkLM None 0%N LLT_Unknown :: map meta_of (pexpected None 1 1 1 ss) ++ [mkLM None 0%N LLT_Unknown; mkLM None 0%N LLT_Eof])
+       mc' last' [] lv a.
+Proof.
+  intros Hwf H Ht0 Htb HtD HtE Hn Hf e.
+  destruct f as [|[|[|f]]]; try lia.
+  rewrite (top_head f s0 (ST_err (@nil nat) _ _ _ _ _ _ _ _ _ _ H)).
+  pose proof (finish_empty_ST (@nil nat) _ _ _ _ _ _ _ _ _ H) as H0.
+  pose proof (push_ctx_ST (@nil nat) cTop _ _ _ _ _ _ _ _ _ _ H0) as H1.
+  destruct (main_core ss f _ 0 [] [] _ _ _ _ Hwf H1 eq_refl Ht0 Htb HtD HtE ltac:(lia)) as (last1 & H9).
+  cbv zeta in H9. fold e in H9.
+  destruct (top_tail_run (S f) _ _ _ _ _ _ _ _ H9 HtE ltac:(unfold e; lia)) as (mc' & last' & H15).
+  exists mc', last'. eapply (ST_lists []); [exact H15| |]; repeat (progress (cbn [app]; rewrite <- ?app_assoc)); reflexivity.
+Qed.
+
+(* ================================================================== *)
+(* declaration sections in front of the main block: `var` (x : T ;)*, `const` (c = d ;)* *)
+(* re-typing the current token and consuming it *)
+Lemma upd_cur_next_ST stk g s k L c M mc last cx lv a t :
+  ST stk s k L c M mc last cx lv a -> nth_error T k = Some t -> t <> RTT_Eof -> g t = Some (fin t) ->
+  has_err pass (upd_cur pass g s) = false /\
+  ST stk (next_token pass (upd_cur pass g s)) (S k) L (c ++ [k]) M mc last cx lv a.
+Proof.
+  intros H Hk HnE Hg. pose proof (ST_err stk _ _ _ _ _ _ _ _ _ _ H) as E.
+  assert (Hkn : k < n) by (apply nth_error_Some; congruence).
+  assert (Tk : ps_toks pass s = mix k) by exact (ST_toks stk _ _ _ _ _ _ _ _ _ _ H).
+  assert (Ec : upd_cur pass g s = set_toks pass (mix (S k)) s).
+  { unfold upd_cur, idx0. rewrite (ST_cur_index stk _ _ _ _ _ _ _ _ _ _ H Hkn).
+    unfold tt_at. rewrite Tk, (mix_nth_ge k k (le_n k)), Hk.
+    assert (X : match t with RTT_Eof => @None nat | _ => Some k end = Some k) by (destruct t; try reflexivity; contradiction HnE; reflexivity).
+    rewrite X. rewrite (mix_nth_ge k k (le_n k)), Hk. cbn [bind]. rewrite Hg.
+    unfold set_tok, guard. rewrite E, Tk, (mix_retype k _ Hk). reflexivity. }
+  rewrite Ec. set (s' := set_toks pass (mix (S k)) s).
+  assert (E' : has_err pass s' = false) by exact E.
+  split; [exact E'|].
+  destruct (next_token_G s' (mix (S k)) k E' eq_refl (mix_plain (S k)) (ST_pidx stk _ _ _ _ _ _ _ _ _ _ H) Hkn (mix_length (S k))) as (K1 & M1 & R1).
+  destruct H as (K & Mt & Ml & R). split; [|split; [|split]].
+  - rewrite K1. change (kst pass s') with (kst pass s). rewrite K. cbn [k_step k_pi k_lines k_cur k_last k_top hd].
+    rewrite (nth_error_seq0 _ _ Hkn). rewrite upd_nth_app_last. reflexivity.
+  - rewrite M1. exact Mt.
+  - exact Ml.
+  - rewrite R1. unfold restv in *. subst s'. cbn. injection R as R1' R2 R3 R4 R5 R6 R7. rewrite R2, R3, R4, R5, R6, R7. reflexivity.
+Qed.
+(* take_until no_more_separators in front of one `;` that does not end a context: the `;` is consumed *)
+Lemma take_until_semi stk s k L c M mc last cx lv a t' :
+  ST stk s k L c M mc last cx lv a -> nth_error T k = Some tSemi -> nth_error T (S k) = Some t' -> t' <> tSemi ->
+  ending_ctx pass s = None ->
+  take_until pass (no_more_separators pass) s = next_token pass s.
+Proof.
+  intros H Hk Hk1 Hne En. pose proof (ST_err stk _ _ _ _ _ _ _ _ _ _ H) as E.
+  pose proof (next_token_ST stk _ _ _ _ _ _ _ _ _ _ H (tokfin_semi k Hk)) as H1.
+  unfold take_until, simple_op_until, op_until.
+  assert (Hrem : remaining pass s + 2 = S (S (remaining pass s))) by lia. rewrite Hrem.
+  cbn [op_until_go]. rewrite E, (ST_cur_tt stk _ _ _ _ _ _ _ _ _ _ _ H Hk). cbn [tSemi].
+  unfold no_more_separators at 1. rewrite (ST_cur_tt stk _ _ _ _ _ _ _ _ _ _ _ H Hk). cbn [tSemi o_semicolon negb].
+  unfold is_ending. rewrite En.
+  rewrite (ST_err stk _ _ _ _ _ _ _ _ _ _ H1), (ST_cur_tt stk _ _ _ _ _ _ _ _ _ _ _ H1 Hk1).
+  destruct t' as [o| |k0|k0| | | | | | |]; try reflexivity;
+    unfold no_more_separators; rewrite (ST_cur_tt stk _ _ _ _ _ _ _ _ _ _ _ H1 Hk1); try reflexivity.
+  destruct o; try reflexivity. exfalso. apply Hne. reflexivity.
+Qed.
+
+(* the members of a declaration block *)
+Definition cDecl : pctx := ctx CT_DeclarationBlock true P_declaration_section (ParserGrammar.L 1).
+Definition Xd : list (pctx * bool) := [(cDecl, false); (cTop, false)].
+Definition is_sect (t : RawTokenType) : bool :=
+  match t with RTT_Keyword (KK_Var _ | KK_Const _ | KK_Begin) => true | _ => false end.
+Lemma declsec_eq (s : pstate) t : cur_tt pass s = Some t -> t <> RTT_Keyword KK_Class ->
+  declaration_section pass s =
+  match t with
+  | RTT_Keyword kk | RTT_IdentifierOrKeyword kk =>
+      match kk with
+      | KK_Exports | KK_Begin | KK_Asm | KK_Class | KK_Property | KK_Function | KK_Procedure | KK_Constructor
+      | KK_Destructor | KK_End | KK_Implementation | KK_Initialization | KK_Finalization => true
+      | KK_Strict | KK_Private | KK_Protected | KK_Public | KK_Published | KK_Automated => is_in_type_decl pass s
+      | _ => KeywordKind_is_decl_section kk
+      end
+  | _ => false
+  end.
+Proof.
+  intros Hc Hn. unfold declaration_section. rewrite Hc.
+  destruct (prev_tt pass s) as [[o| |k0|k0| | | | | | |]|]; try reflexivity.
+  - destruct o; try reflexivity. destruct t as [o| |k1|k1| | | | | | |]; try reflexivity. destruct k1; try reflexivity. contradiction Hn; reflexivity.
+  - destruct k0; try reflexivity. destruct t as [o| |k1|k1| | | | | | |]; try reflexivity. destruct k1; try reflexivity. contradiction Hn; reflexivity.
+Qed.
+Lemma ending_Xd stk s k L c M mc last lv a t :
+  ST stk s k L c M mc last Xd lv a -> nth_error T k = Some t -> (is_sect t = true \/ t = tI \/ t = tColon \/ t = tEq \/ t = tSemi) ->
+  ending_ctx pass s = if is_sect t then Some 1 else None.
+Proof.
+  intros H Ht Hc. unfold ending_ctx. rewrite (ST_ctx stk _ _ _ _ _ _ _ _ _ _ H). unfold Xd. cbn [ending_go cDecl ctx c_pred c_opaque eval_pred].
+  assert (HnE : t <> RTT_Eof) by (destruct Hc as [Hc|[->|[->|[->| ->]]]]; try discriminate; intros ->; discriminate).
+  assert (Ct : cur_tt pass s = Some t).
+  { rewrite (ST_cur_tt stk _ _ _ _ _ _ _ _ _ _ _ H Ht). destruct t; try reflexivity. contradiction HnE; reflexivity. }
+  rewrite (declsec_eq s t Ct) by (destruct Hc as [Hc|[->|[->|[->| ->]]]]; try discriminate; intros ->; discriminate).
+  destruct Hc as [Hc|[->|[->|[->| ->]]]]; try reflexivity.
+  destruct t as [o| |k0|k0| | | | | | |]; try discriminate. destruct k0; try discriminate; reflexivity.
+Qed.
+
+Lemma mix_nth_lt r i : i < r -> nth_error (mix r) i = option_map fin (nth_error T i).
+Proof.
+  intros H. unfold mix. destruct (Nat.lt_ge_cases i n) as [Hi|Hi].
+  - rewrite nth_error_app1 by (rewrite map_length, firstn_length; lia).
+    rewrite nth_error_map. f_equal. rewrite <- (firstn_skipn r T) at 2. rewrite nth_error_app1 by (rewrite firstn_length; lia). reflexivity.
+  - rewrite (proj2 (nth_error_None T i) Hi). cbn. apply nth_error_None. rewrite app_length, map_length, <- app_length, firstn_skipn. exact Hi.
+Qed.
+Lemma prelude_ns stk s k L c M mc last x fl r lv a :
+  ST stk s k L c M mc last ((x, fl) :: r) lv a -> ending_ctx pass s = None -> c <> [] -> statement_prelude pass s = (s, true).
+Proof.
+  intros H E Hc. unfold statement_prelude. rewrite (last_ctx_ST stk _ _ _ _ _ _ _ _ _ _ _ _ H), E, (ST_at_start stk _ _ _ _ _ _ _ _ _ _ H).
+  destruct c; [contradiction|reflexivity].
+Qed.
+Lemma Xd_ctype stk s k L c M mc last lv a : ST stk s k L c M mc last Xd lv a -> last_ctype pass s = Some CT_DeclarationBlock.
+Proof. intros H. unfold last_ctype. rewrite (last_ctx_ST stk _ _ _ _ _ _ _ _ _ _ _ _ H). reflexivity. Qed.
+Lemma Xd_none stk s k L c M mc last lv a t :
+  ST stk s k L c M mc last Xd lv a -> nth_error T k = Some t -> (t = tI \/ t = tColon \/ t = tEq \/ t = tSemi) -> ending_ctx pass s = None.
+Proof. intros H Hk Ht. rewrite (ending_Xd stk _ _ _ _ _ _ _ _ _ _ H Hk (or_intror Ht)). destruct Ht as [->|[->|[->| ->]]]; reflexivity. Qed.
+
+(* the name that starts a member: the line becomes a Declaration line *)
+Lemma decl_name stk f s k L M mc last lv a :
+  ST stk s k L [] M mc last Xd lv a -> nth_error T k = Some tI ->
+  RUN (S f) C_statement s = RUN f C_statement (next_token pass (set_line_type pass LLT_Declaration s)).
+Proof.
+  intros H Hk. pose proof (Xd_none stk _ _ _ _ _ _ _ _ _ _ H Hk ltac:(left; reflexivity)) as E0.
+  rewrite (run_S _ C_statement _ (ST_err stk _ _ _ _ _ _ _ _ _ _ H)).
+  unfold arm_statement. rewrite (ST_cur_tt stk _ _ _ _ _ _ _ _ _ _ _ H Hk). cbn [tI].
+  assert (Pr : statement_prelude pass s = (set_line_type pass LLT_Declaration s, true)).
+  { unfold statement_prelude. rewrite (last_ctx_ST stk _ _ _ _ _ _ _ _ _ _ _ _ H), E0, (ST_at_start stk _ _ _ _ _ _ _ _ _ _ H). reflexivity. }
+  rewrite Pr. cbn [negb starm_of tI].
+  pose proof (set_line_type_ST stk LLT_Declaration _ _ _ _ _ _ _ _ _ _ H) as H0.
+  unfold st_label_cand, label_or_other.
+  assert (Lx : is_label_ctx_excluded pass (set_line_type pass LLT_Declaration s) = true).
+  { unfold is_label_ctx_excluded. rewrite (Xd_ctype stk _ _ _ _ _ _ _ _ _ H0). reflexivity. }
+  rewrite Lx, andb_false_r. reflexivity.
+Qed.
+Lemma decl_ident stk f s k L c M mc last lv a :
+  ST stk s k L c M mc last Xd lv a -> c <> [] -> nth_error T k = Some tI ->
+  RUN (S f) C_statement s = RUN f C_statement (next_token pass s).
+Proof.
+  intros H Hc Hk. pose proof (Xd_none stk _ _ _ _ _ _ _ _ _ _ H Hk ltac:(left; reflexivity)) as E0.
+  rewrite (run_S _ C_statement _ (ST_err stk _ _ _ _ _ _ _ _ _ _ H)).
+  unfold arm_statement. rewrite (ST_cur_tt stk _ _ _ _ _ _ _ _ _ _ _ H Hk). cbn [tI].
+  rewrite (prelude_ns stk _ _ _ _ _ _ _ _ _ _ _ _ H E0 Hc). cbn [negb starm_of tI].
+  unfold st_label_cand, label_or_other.
+  rewrite (ST_at_start stk _ _ _ _ _ _ _ _ _ _ H). destruct c; [contradiction|reflexivity].
+Qed.
+Lemma decl_colon stk f s k L c M mc last lv a :
+  ST stk s k L c M mc last Xd lv a -> c <> [] -> lm_type mc = LLT_Declaration -> nth_error T k = Some tColon -> nth_error T (S k) = Some tI ->
+  RUN (S f) C_statement s = RUN f C_statement (next_token pass s).
+Proof.
+  intros H Hc Hty Hk Hk1. pose proof (Xd_none stk _ _ _ _ _ _ _ _ _ _ H Hk ltac:(right; left; reflexivity)) as E0.
+  rewrite (run_S _ C_statement _ (ST_err stk _ _ _ _ _ _ _ _ _ _ H)).
+  unfold arm_statement. rewrite (ST_cur_tt stk _ _ _ _ _ _ _ _ _ _ _ H Hk). cbn [tColon].
+  rewrite (prelude_ns stk _ _ _ _ _ _ _ _ _ _ _ _ H E0 Hc). cbn [negb starm_of tColon].
+  unfold st_colon.
+  assert (LP : line_parent_of_current pass s = Some (length L, k)).
+  { unfold line_parent_of_current. rewrite (ST_cur_index stk _ _ _ _ _ _ _ _ _ _ H ltac:(apply nth_error_Some; congruence)), (ST_cur_ref stk _ _ _ _ _ _ _ _ _ _ H). reflexivity. }
+  rewrite LP.
+  pose proof (next_token_ST stk _ _ _ _ _ _ _ _ _ _ H ltac:(exists tColon; split; [exact Hk|reflexivity])) as H2.
+  rewrite (ST_cur_type stk _ _ _ _ _ _ _ _ _ _ H2), Hty. cbn [llt_is LogicalLineType_eqb LogicalLineType_idx Nat.eqb].
+  rewrite (Xd_ctype stk _ _ _ _ _ _ _ _ _ H2), (ST_cur_tt stk _ _ _ _ _ _ _ _ _ _ _ H2 Hk1). cbn [tI]. unfold t_loop.
+  rewrite (caret_noop_G _ (toks_plain_G _ _ (ST_toks stk _ _ _ _ _ _ _ _ _ _ H2))). reflexivity.
+Qed.
+(* the `=` of a constant: re-typed to a declaration `=` *)
+Lemma decl_eq stk f s k k0 L M mc last lv a :
+  ST stk s k L [k0] M mc last Xd lv a -> k0 < k -> nth_error T k0 = Some tI -> nth_error T k = Some tEq ->
+  exists s', RUN (S f) C_statement s = RUN f C_statement s' /\ ST stk s' (S k) L [k0; k] M mc last Xd lv a.
+Proof.
+  intros H Hlt Hk0 Hk. pose proof (Xd_none stk _ _ _ _ _ _ _ _ _ _ H Hk ltac:(right; right; left; reflexivity)) as E0.
+  rewrite (run_S _ C_statement _ (ST_err stk _ _ _ _ _ _ _ _ _ _ H)).
+  unfold arm_statement. rewrite (ST_cur_tt stk _ _ _ _ _ _ _ _ _ _ _ H Hk). cbn [tEq].
+  rewrite (prelude_ns stk _ _ _ _ _ _ _ _ _ _ _ _ H E0 ltac:(discriminate)). cbn [negb starm_of].
+  unfold st_equal. rewrite (Xd_ctype stk _ _ _ _ _ _ _ _ _ H).
+  assert (CL : cur_line_tts pass s = [tI]).
+  { unfold cur_line_tts. rewrite (ST_cur_toks stk _ _ _ _ _ _ _ _ _ _ H). cbn [flat_map]. unfold tt_at.
+    rewrite (ST_toks stk _ _ _ _ _ _ _ _ _ _ H), (mix_nth_lt k k0 Hlt), Hk0. reflexivity. }
+  rewrite CL. cbn [existsb tI negb andb orb].
+  destruct (upd_cur_next_ST stk (fun _ => Some (RTT_Op (OK_Equal EK_Decl))) _ _ _ _ _ _ _ _ _ _ tEq H Hk ltac:(discriminate) eq_refl) as [Eu H2].
+  cbn [app] in H2. unfold set_current_token_type.
+  rewrite (Xd_ctype stk _ _ _ _ _ _ _ _ _ H2). unfold t_loop. eexists. split; [reflexivity|exact H2].
+Qed.
+Lemma decl_semi stk f s k L c M mc last lv a t' :
+  ST stk s k L c M mc last Xd lv a -> c <> [] -> nth_error T k = Some tSemi -> nth_error T (S k) = Some t' -> t' <> tSemi ->
+  RUN (S f) C_statement s = finish_logical_line pass (next_token pass s).
+Proof.
+  intros H Hc Hk Hk1 Hne. pose proof (Xd_none stk _ _ _ _ _ _ _ _ _ _ H Hk ltac:(right; right; right; reflexivity)) as E0.
+  rewrite (run_S _ C_statement _ (ST_err stk _ _ _ _ _ _ _ _ _ _ H)).
+  unfold arm_statement. rewrite (ST_cur_tt stk _ _ _ _ _ _ _ _ _ _ _ H Hk). cbn [tSemi].
+  rewrite (prelude_ns stk _ _ _ _ _ _ _ _ _ _ _ _ H E0 Hc). cbn [negb starm_of].
+  unfold st_semicolon. rewrite (take_until_semi stk _ _ _ _ _ _ _ _ _ _ _ H Hk Hk1 Hne E0). reflexivity.
+Qed.
+(* one member `Identifier : Identifier ;` or `Identifier = Identifier ;` *)
+Lemma member_run (cst : bool) stk f s k L M mc last lv a t' :
+  ST stk s k L [] M mc last Xd lv a ->
+  nth_error T k = Some tI -> nth_error T (S k) = Some (if cst then tEq else tColon) -> nth_error T (S (S k)) = Some tI ->
+  nth_error T (S (S (S k))) = Some tSemi -> nth_error T (S (S (S (S k)))) = Some t' -> t' <> tSemi -> 4 <= f ->
+  ST stk (RUN f C_statement s) (S (S (S (S k)))) (L ++ [[k; S k; S (S k); S (S (S k))]]) []
+     (M ++ [mkLM None 1%N LLT_Declaration]) (mkLM None 1%N LLT_Unknown) (length L) Xd lv a.
+Proof.
+  intros H Hk Hk1 Hk2 Hk3 Hk4 Hne Hf. destruct f as [|[|[|[|f]]]]; try lia.
+  assert (Hkn : tokfin k) by tokfin_tac. assert (Hkn2 : tokfin (S (S k))) by tokfin_tac.
+  rewrite (decl_name stk _ _ _ _ _ _ _ _ _ H Hk).
+  pose proof (set_line_type_ST stk LLT_Declaration _ _ _ _ _ _ _ _ _ _ H) as H0.
+  pose proof (next_token_ST stk _ _ _ _ _ _ _ _ _ _ H0 Hkn) as H1. cbn [app] in H1.
+  assert (S2 : exists s2, RUN (S (S (S f))) C_statement (next_token pass (set_line_type pass LLT_Declaration s)) = RUN (S (S f)) C_statement s2 /\
+               ST stk s2 (S (S k)) L [k; S k] M (mkLM (lm_parent mc) (lm_level mc) LLT_Declaration) last Xd lv a).
+  { destruct cst.
+    - exact (decl_eq stk _ _ _ _ _ _ _ _ _ _ H1 (Nat.lt_succ_diag_r k) Hk Hk1).
+    - eexists. split; [exact (decl_colon stk _ _ _ _ _ _ _ _ _ _ H1 ltac:(discriminate) eq_refl Hk1 Hk2)|].
+      exact (next_token_ST stk _ _ _ _ _ _ _ _ _ _ H1 ltac:(exists tColon; split; [exact Hk1|reflexivity])). }
+  destruct S2 as (s2 & -> & H2).
+  rewrite (decl_ident stk _ _ _ _ _ _ _ _ _ _ H2 ltac:(discriminate) Hk2).
+  pose proof (next_token_ST stk _ _ _ _ _ _ _ _ _ _ H2 Hkn2) as H3. cbn [app] in H3.
+  rewrite (decl_semi stk _ _ _ _ _ _ _ _ _ _ _ H3 ltac:(discriminate) Hk3 Hk4 Hne).
+  pose proof (next_token_ST stk _ _ _ _ _ _ _ _ _ _ H3 (tokfin_semi _ Hk3)) as H4. cbn [app] in H4.
+  pose proof (finish_ST stk _ _ _ _ _ _ _ _ _ _ H4 ltac:(discriminate)) as H5.
+  exact H5.
+Qed.
+
+(* the members of one section, up to the keyword that starts the next section or the main block *)
+Lemma is_sect_ne t : is_sect t = true -> t <> RTT_Eof /\ t <> tSemi.
+Proof. intros H. split; intros ->; discriminate. Qed.
+Lemma members_run (cst : bool) stk n : forall f s k L M mc last lv a t',
+  ST stk s k L [] M mc last Xd lv a -> lm_type mc = LLT_Unknown ->
+  toks_at k (render_members [tI; (if cst then tEq else tColon); tI; tSemi] n ++ [t']) -> is_sect t' = true -> n + 5 <= f ->
+  exists mc' last', lm_type mc' = LLT_Unknown /\
+  ST stk (RUN f C_structures s) (k + 4 * n) (L ++ map ll_toks (member_lines k n)) []
+     (M ++ map meta_of (member_lines k n)) mc' last' (mark_ended 1 Xd) lv a.
+Proof.
+  induction n as [|n IH]; intros f s k L M mc last lv a t' H Hty Ht Hs Hf.
+  - destruct f as [|f]; [lia|]. cbn [render_members app] in Ht. pose proof (toks_at_0 _ _ _ Ht eq_refl) as Hk.
+    destruct (is_sect_ne _ Hs) as [HnE _].
+    pose proof (ending_Xd stk _ _ _ _ _ _ _ _ _ _ H Hk (or_introl Hs)) as E. rewrite Hs in E.
+    rewrite (structures_stop stk _ _ _ _ _ _ _ _ _ _ _ _ _ H Hk HnE E).
+    cbn [member_lines map Nat.mul]. rewrite !app_nil_r, Nat.add_0_r.
+    exists mc, last. split; [exact Hty|]. exact (update_statuses_ST stk 1 _ _ _ _ _ _ _ _ _ _ H).
+  - destruct f as [|f]; [lia|]. cbn [render_members] in Ht.
+    assert (Hk : nth_error T k = Some tI) by exact (toks_at_0 _ _ _ Ht eq_refl).
+    assert (Hk1 : nth_error T (S k) = Some (if cst then tEq else tColon)) by (rewrite <- Nat.add_1_r; exact (Ht 1 _ eq_refl)).
+    assert (Hk2 : nth_error T (S (S k)) = Some tI) by (replace (S (S k)) with (k + 2) by lia; exact (Ht 2 _ eq_refl)).
+    assert (Hk3 : nth_error T (S (S (S k))) = Some tSemi) by (replace (S (S (S k))) with (k + 3) by lia; exact (Ht 3 _ eq_refl)).
+    assert (Hk4 : exists t4, nth_error T (S (S (S (S k)))) = Some t4 /\ t4 <> tSemi).
+    { replace (S (S (S (S k)))) with (k + 4) by lia. destruct n as [|n'].
+      - exists t'. split; [exact (Ht 4 _ eq_refl)|exact (proj2 (is_sect_ne _ Hs))].
+      - exists tI. split; [exact (Ht 4 _ eq_refl)|discriminate]. }
+    destruct Hk4 as (t4 & Hk4 & Hne4).
+    pose proof (Xd_none stk _ _ _ _ _ _ _ _ _ _ H Hk ltac:(left; reflexivity)) as E0.
+    rewrite (structures_ident stk _ _ _ _ _ _ _ _ _ _ _ H Hk E0).
+    pose proof (member_run cst stk f _ _ _ _ _ _ _ _ _ H Hk Hk1 Hk2 Hk3 Hk4 Hne4 ltac:(lia)) as H1.
+    assert (Ht' : toks_at (k + 4) (render_members [tI; (if cst then tEq else tColon); tI; tSemi] n ++ [t'])).
+    { apply (toks_at_shift k 4 [tI; (if cst then tEq else tColon); tI; tSemi]); [exact Ht|reflexivity]. }
+    replace (S (S (S (S k)))) with (k + 4) in H1 by lia.
+    destruct (IH f _ _ _ _ _ _ _ _ t' H1 eq_refl Ht' Hs ltac:(lia)) as (mc' & last' & Ty' & H2).
+    exists mc', last'. split; [exact Ty'|].
+    cbn [member_lines map ll_toks meta_of].
+    replace (k + 4 * S n) with (k + 4 + 4 * n) by lia.
+    replace (k + 1) with (S k) by lia. replace (k + 2) with (S (S k)) by lia. replace (k + 3) with (S (S (S k))) by lia.
+    rewrite <- !app_assoc in H2. cbn [app] in H2. exact H2.
+Qed.
+
+Lemma with_ctx_block f cx s : has_err pass s = false -> clevel_parent (c_level cx) = None ->
+  RUN (S (S f)) (C_block cx) s
+  = pop_ctx pass (finish_logical_line pass (RUN f C_structures (push_ctx pass cx (finish_logical_line pass s)))).
+Proof.
+  intros E P. rewrite (run_S _ _ _ E). unfold arm_block. rewrite (run_S _ _ _ E). unfold arm_with_ctx. rewrite P. reflexivity.
+Qed.
+Lemma cTop_ctype s k L c M mc last lv a : ST [] s k L c M mc last [(cTop, false)] lv a -> last_ctype pass s = Some CT_TopLevelStatement.
+Proof. intros H. unfold last_ctype. rewrite (last_ctx_ST [] _ _ _ _ _ _ _ _ _ _ _ _ H). reflexivity. Qed.
+(* one section: its keyword on a line of level 0, its members on lines of level 1 *)
+Lemma section_run (cst : bool) n f s K L M mc last lv a t' :
+  ST [] s K L [] M mc last [(cTop, false)] lv a -> lm_type mc = LLT_Unknown ->
+  nth_error T K = Some (if cst then tConst else tVar) ->
+  toks_at (S K) (render_members [tI; (if cst then tEq else tColon); tI; tSemi] n ++ [t']) -> is_sect t' = true -> n + 7 <= f ->
+  exists s' mc' last', RUN (S f) C_structures s = RUN f C_structures s' /\ lm_type mc' = LLT_Unknown /\
+    ST [] s' (S K + 4 * n) (L ++ [K] :: map ll_toks (member_lines (S K) n)) []
+       (M ++ mkLM None 0%N LLT_Unknown :: map meta_of (member_lines (S K) n)) mc' last' [(cTop, false)] lv a.
+Proof.
+  intros H Hty HK Ht Hs Hf. destruct f as [|[|f]]; try lia.
+  assert (HnE : (if cst then tConst else tVar) <> RTT_Eof) by (destruct cst; discriminate).
+  rewrite (run_S _ C_structures _ (ST_err [] _ _ _ _ _ _ _ _ _ _ H)).
+  unfold arm_structures. rewrite (ST_cur_tt [] _ _ _ _ _ _ _ _ _ _ _ H HK).
+  assert (E1 : ending_ctx pass s = None).
+  { unfold ending_ctx. rewrite (ST_ctx [] _ _ _ _ _ _ _ _ _ _ H). cbn [ending_go cTop ctx c_pred c_opaque eval_pred].
+    rewrite (ST_cur_tt [] _ _ _ _ _ _ _ _ _ _ _ H HK). destruct cst; reflexivity. }
+  assert (Ea : match (if cst then tConst else tVar) with RTT_Eof => None | _ => Some (if cst then tConst else tVar) end
+               = Some (if cst then tConst else tVar)) by (destruct cst; reflexivity).
+  rewrite Ea, E1.
+  assert (Sa : sarm_of (if cst then tConst else tVar) = SA_decl (if cst then KK_Const DK_Other else KK_Var DK_Other)) by (destruct cst; reflexivity).
+  rewrite Sa. unfold sa_decl. rewrite (cTop_ctype _ _ _ _ _ _ _ _ _ H).
+  destruct (upd_cur_next_ST [] (fun t => match t with
+                    | RTT_Keyword (KK_Const _) => Some (RTT_Keyword (KK_Const DK_Section))
+                    | RTT_Keyword (KK_Var _) => Some (RTT_Keyword (KK_Var DK_Section))
+                    | _ => None end) _ _ _ _ _ _ _ _ _ _ _ H HK HnE ltac:(destruct cst; reflexivity)) as [Eu H2].
+  cbn [app] in H2. unfold set_current_decl_kind. cbv zeta.
+  match type of H2 with ST _ ?x _ _ _ _ _ _ _ _ _ => set (s2 := x) in * end.
+  rewrite (cTop_ctype _ _ _ _ _ _ _ _ _ H2).
+  pose proof (finish_ST [] _ _ _ _ _ _ _ _ _ _ H2 ltac:(discriminate)) as H3.
+  cbn [first_parent plain_sum cTop ctx c_level ParserGrammar.L app length] in H3. rewrite Hty in H3.
+  change (clamp_u16 (0 + 0)) with 0%N in H3.
+  assert (Ct : ctx (match (if cst then KK_Const DK_Other else KK_Var DK_Other) with KK_Type => CT_TypeBlock | _ => CT_DeclarationBlock end)
+                   true P_declaration_section (ParserGrammar.L 1) = cDecl) by (destruct cst; reflexivity).
+  rewrite Ct.
+  rewrite (with_ctx_block f cDecl _ (ST_err [] _ _ _ _ _ _ _ _ _ _ H3) eq_refl).
+  pose proof (finish_empty_ST [] _ _ _ _ _ _ _ _ _ H3) as H4.
+  pose proof (push_ctx_ST [] cDecl _ _ _ _ _ _ _ _ _ _ H4) as H5. fold Xd in H5.
+  destruct (members_run cst [] n f _ _ _ _ _ _ _ _ t' H5 eq_refl Ht Hs ltac:(lia)) as (mc' & last' & Ty' & H6).
+  pose proof (finish_empty_ST [] _ _ _ _ _ _ _ _ _ H6) as H7.
+  pose proof (pop_ctx_ST [] _ _ _ _ _ _ _ _ _ _ _ H7) as H8.
+  eexists _, _, _. split; [reflexivity|]. split; [|eapply (ST_lists []); [exact H8| |]].
+  - reflexivity.
+  - rewrite <- app_assoc. reflexivity.
+  - rewrite <- app_assoc. reflexivity.
+Qed.
+
+(* all the sections in front of the main block *)
+Fixpoint dneed (ds : list decl) : nat := match ds with [] => 0 | dc :: r => Nat.max (decl_n dc) (dneed r) end.
+Lemma render_members_length m j : length (render_members m j) = j * length m.
+Proof. induction j as [|j IH]; cbn [render_members Nat.mul]; [reflexivity|]. rewrite app_length, IH. reflexivity. Qed.
+Lemma render_decl_length dc : length (render_decl dc) = 1 + 4 * decl_n dc.
+Proof. destruct dc; cbn [render_decl decl_n length]; rewrite render_members_length; cbn [length]; lia. Qed.
+Lemma decls_head r t' : is_sect t' = true -> exists t'' rest, render_decls r ++ [t'] = t'' :: rest /\ is_sect t'' = true.
+Proof.
+  intros H. destruct r as [|[j|j] r]; cbn [render_decls render_decl app].
+  - exists t', []. split; [reflexivity|exact H].
+  - eexists _, _. split; [reflexivity|reflexivity].
+  - eexists _, _. split; [reflexivity|reflexivity].
+Qed.
+Lemma decls_run ds : forall f s K L M mc last lv a t',
+  ST [] s K L [] M mc last [(cTop, false)] lv a -> lm_type mc = LLT_Unknown ->
+  toks_at K (render_decls ds ++ [t']) -> is_sect t' = true -> dneed ds + 7 <= f ->
+  exists s' mc' last', RUN (length ds + f) C_structures s = RUN f C_structures s' /\ lm_type mc' = LLT_Unknown /\
+    ST [] s' (K + length (render_decls ds)) (L ++ map ll_toks (decl_lines K ds)) []
+       (M ++ map meta_of (decl_lines K ds)) mc' last' [(cTop, false)] lv a.
+Proof.
+  induction ds as [|dc r IH]; intros f s K L M mc last lv a t' H Hty Ht Hs Hf.
+  - exists s, mc, last. split; [reflexivity|]. split; [exact Hty|]. cbn [render_decls decl_lines map length]. rewrite !app_nil_r, Nat.add_0_r. exact H.
+  - cbn [dneed] in Hf. cbn [render_decls] in Ht. rewrite <- app_assoc in Ht.
+    destruct (decls_head r t' Hs) as (t'' & rest & Er & Hs'').
+    set (cst := match dc with DVar _ => false | DConst _ => true end).
+    assert (Erd : render_decl dc = (if cst then tConst else tVar) :: render_members [tI; (if cst then tEq else tColon); tI; tSemi] (decl_n dc))
+      by (destruct dc; reflexivity).
+    rewrite Erd in Ht. cbn [app] in Ht.
+    assert (HK : nth_error T K = Some (if cst then tConst else tVar)) by exact (toks_at_0 _ _ _ Ht eq_refl).
+    assert (Ht1 : toks_at (S K) (render_members [tI; (if cst then tEq else tColon); tI; tSemi] (decl_n dc) ++ [t''])).
+    { rewrite <- Nat.add_1_r. rewrite Er in Ht.
+      apply (toks_at_prefix _ _ rest).
+      apply (toks_at_shift K 1 [if cst then tConst else tVar]); [|reflexivity]. cbn [app]. rewrite <- app_assoc. exact Ht. }
+    assert (Ht2 : toks_at (S K + 4 * decl_n dc) (render_decls r ++ [t'])).
+    { replace (S K + 4 * decl_n dc) with (K + (1 + 4 * decl_n dc)) by lia.
+      apply (toks_at_shift K _ ((if cst then tConst else tVar) :: render_members [tI; (if cst then tEq else tColon); tI; tSemi] (decl_n dc))); [exact Ht|].
+      cbn [length]. rewrite render_members_length. cbn [length]. lia. }
+    cbn [length]. replace (S (length r) + f) with (S (length r + f)) by lia.
+    destruct (section_run cst (decl_n dc) (length r + f) _ _ _ _ _ _ _ _ t'' H Hty HK Ht1 Hs'' ltac:(lia)) as (s1 & mc1 & last1 & Eq1 & Ty1 & H1).
+    rewrite Eq1.
+    destruct (IH f _ _ _ _ _ _ _ _ t' H1 Ty1 Ht2 Hs ltac:(lia)) as (s2 & mc2 & last2 & Eq2 & Ty2 & H2).
+    exists s2, mc2, last2. split; [exact Eq2|]. split; [exact Ty2|].
+    replace (K + length (render_decls (dc :: r))) with (S K + 4 * decl_n dc + length (render_decls r))
+      by (cbn [render_decls]; rewrite app_length, render_decl_length; lia).
+    eapply (ST_lists []); [exact H2| |].
+    + cbn [decl_lines map ll_toks]. rewrite map_app, <- !app_assoc. cbn [app].
+      replace (K + 1) with (S K) by lia. replace (S K + 4 * decl_n dc) with (K + 1 + 4 * decl_n dc) by lia. reflexivity.
+    + cbn [decl_lines map meta_of ll_parent ll_level ll_type]. rewrite map_app, <- !app_assoc. cbn [app].
+      replace (K + 1) with (S K) by lia. replace (S K + 4 * decl_n dc) with (K + 1 + 4 * decl_n dc) by lia. reflexivity.
+Qed.
+
+Lemma prog_toks K ss : toks_at K (render_prog ss) ->
+  nth_error T K = Some tBegin /\ toks_at (S K) (render ss ++ [tEnd]) /\
+  nth_error T (S (S K + length (render ss))) = Some tDot /\ nth_error T (S (S (S K + length (render ss)))) = Some RTT_Eof.
+Proof.
+  intros H. unfold render_prog in H. split; [exact (toks_at_0 _ _ _ H eq_refl)|].
+  assert (H1 : toks_at (S K) (render ss ++ [tEnd; tDot; RTT_Eof])).
+  { rewrite <- Nat.add_1_r. apply (toks_at_shift K 1 [tBegin]); [exact H|reflexivity]. }
+  split; [|split].
+  - apply (toks_at_prefix _ _ [tDot; RTT_Eof]). rewrite <- app_assoc. exact H1.
+  - replace (S (S K + length (render ss))) with (S K + S (length (render ss))) by lia. apply H1.
+    rewrite nth_error_app2 by lia. replace (S (length (render ss)) - length (render ss)) with 1 by lia. reflexivity.
+  - replace (S (S (S K + length (render ss)))) with (S K + S (S (length (render ss)))) by lia. apply H1.
+    rewrite nth_error_app2 by lia. replace (S (S (length (render ss))) - length (render ss)) with 2 by lia. reflexivity.
+Qed.
+Lemma decl_lines_toks_length K ds : length (map ll_toks (decl_lines K ds)) = length (decl_lines K ds).
+Proof. apply map_length. Qed.
+(* a unit: the sections, then the main block *)
+Theorem unit_run ds ss f s0 mc0 last0 lv a :
+  wf ss = true -> ST [] s0 0 [] [] [] mc0 last0 [] lv a ->
+  toks_at 0 (render_unit ds ss) -> n = length (render_unit ds ss) ->
+  dneed ds + 7 <= f -> 8 + need ss <= f ->
+  exists mc' last',
+    ST [] (RUN (S (S (S (length ds + f)))) C_top s0) n (map ll_toks (pexpected_unit ds ss)) []
+       (map meta_of (pexpected_unit ds ss)) mc' last' [] lv a.
+Proof.
+  intros Hwf H Ht Hn Hfd Hfs.
+  rewrite (top_head (length ds + f) s0 (ST_err (@nil nat) _ _ _ _ _ _ _ _ _ _ H)).
+  pose proof (finish_empty_ST (@nil nat) _ _ _ _ _ _ _ _ _ H) as H0.
+  pose proof (push_ctx_ST (@nil nat) cTop _ _ _ _ _ _ _ _ _ _ H0) as H1.
+  unfold render_unit in Ht.
+  assert (Htp : toks_at (length (render_decls ds)) (render_prog ss)) by exact (toks_at_shift 0 _ _ _ Ht eq_refl).
+  destruct (prog_toks _ _ Htp) as (Ht0 & Htb & HtD & HtE).
+  assert (Htd : toks_at 0 (render_decls ds ++ [tBegin])).
+  { apply (toks_at_prefix _ _ (render ss ++ [tEnd; tDot; RTT_Eof])). rewrite <- app_assoc. exact Ht. }
+  destruct (decls_run ds f _ 0 [] [] _ _ _ _ tBegin H1 eq_refl Htd eq_refl Hfd) as (s2 & mc2 & last2 & Eq2 & Ty2 & H2).
+  rewrite Eq2. cbn [app Nat.add] in H2.
+  destruct (main_core ss f _ _ _ _ _ _ _ _ Hwf H2 Ty2 Ht0 Htb HtD HtE Hfs) as (last3 & H9).
+  cbv zeta in H9.
+  destruct (top_tail_run (S (length ds + f)) _ _ _ _ _ _ _ _ H9 HtE
+              ltac:(rewrite Hn; unfold render_unit; rewrite app_length; unfold render_prog; cbn [length]; rewrite app_length; cbn [length]; lia)) as (mc' & last' & H15).
+  exists mc', last'. eapply (ST_lists []); [exact H15| |].
+  - unfold pexpected_unit, main_lines. cbv zeta. rewrite map_length. rewrite !map_app. cbn [map ll_toks]. rewrite map_app. cbn [map ll_toks].
+    rewrite <- !app_assoc. cbn [app]. rewrite <- !app_assoc. cbn [app]. rewrite !Nat.add_1_r.
+    replace (S (length (render_decls ds)) + length (render ss) + 2) with (S (S (S (length (render_decls ds)) + length (render ss)))) by lia.
+    reflexivity.
+  - unfold pexpected_unit, main_lines. cbv zeta. rewrite map_length. rewrite !map_app. cbn [map meta_of ll_parent ll_level ll_type]. rewrite map_app.
+    cbn [map meta_of ll_parent ll_level ll_type].
+    rewrite <- !app_assoc. cbn [app]. rewrite <- !app_assoc. cbn [app]. rewrite !Nat.add_1_r. reflexivity.
+Qed.
+
+
 End Frag.
 
 Lemma render_plain ss : Forall plain (render ss).
@@ -3058,7 +3506,7 @@ Proof.
   assert (HtE : nth_error T (S (S (S (length (render ss))))) = Some RTT_Eof).
   { change (nth_error (render ss ++ [tEnd; tDot; RTT_Eof]) (S (S (length (render ss)))) = Some RTT_Eof).
     rewrite nth_error_app2 by lia. replace (S (S (length (render ss))) - length (render ss)) with 2 by lia. reflexivity. }
-  assert (Hf : 8 + need ss <= run_fuel pass).
+  assert (Hf : 12 + need ss <= run_fuel pass).
   { unfold run_fuel, need, pass. rewrite seq_length, Ln. lia. }
   unfold parse_pass. set (f := run_fuel pass) in *. clearbody f.
   destruct (prog_run T P ss f _ _ _ _ _ Hwf H0 Ht0 Htb HtD HtE Ln Hf) as (mc' & last' & H).
@@ -3313,7 +3761,12 @@ Lemma filter_all {A} (p : A -> bool) l : Forall (fun x => p x = true) l -> filte
 Proof. induction 1 as [|x l Hx _ IH]; cbn; [reflexivity|]. rewrite Hx, IH. reflexivity. Qed.
 
 Lemma cement_fin t : plain t -> cement (fin t) = fin t.
-Proof. destruct t as [o| |k0|k0| | | | | | |]; cbn; try reflexivity; try contradiction. destruct k0; try contradiction. reflexivity. Qed.
+Proof.
+  destruct t as [o| |k0|k0| | | | | | |]; try (cbn; reflexivity); try contradiction.
+  - destruct o; try (cbn; reflexivity); try contradiction. destruct k; cbn; reflexivity.
+  - destruct k0; try contradiction. cbn. reflexivity.
+  - destruct k0; try (cbn; reflexivity); try contradiction; match goal with d : DeclKind |- _ => destruct d; cbn; reflexivity end.
+Qed.
 Lemma upd_nth_id {A} (f : A -> A) i : forall l, (forall x, In x l -> f x = x) -> upd_nth i f l = l.
 Proof.
   revert i. induction i as [|i IH]; intros [|a l] H; cbn; try reflexivity.
